@@ -19,3 +19,26 @@ reg("C04", "DESIGN.md#5", "abstract interpretation of the step executor per stat
     "Decides for the at-most-once mode that every path reaching the step function carries an accepted synchronous START issued earlier in the "
     "same call, that a STARTED attempt is routed to the retry strategy as interrupted, and that a START not confirmed as STARTED aborts.",
     "Assumes the backend's attempt counter / READY->STARTED transitions; crash points themselves are not enumerated (the rule is per path).")
+reg("C11", "DESIGN.md#12", "abstract interpretation: per-cell update sequences run through a lifecycle automaton",
+    "Decides that in every applicable (executor, status) cell, on every path with faults injected, the sequence of updates handed over is accepted by "
+    "the lifecycle automaton of the statement; kind purity and identifier threading of every update; context START precedes its body; the execution "
+    "record is unique, last and built only by the wrapper; OperationUpdate is only built by its factories.",
+    "Validity of the concatenation across invocations depends on the cell the next invocation starts in (not decided); FIFO delivery is C03/C05.")
+reg("C12", "DESIGN.md#13", "abstract interpretation of step executor + symbolic interpretation of the packaged strategy closures",
+    "Decides the attempt expression handed to the strategy (recorded attempt + 1), decision=>effect (sync RETRY with delay lower bound 1 then timed suspend; "
+    "sync FAIL then raise), PENDING only suspends, and for the packaged retry/wait strategies that the max-attempts cut-off guards every retry, "
+    "the delay has lower bound 1 and the pre-jitter delay is capped.",
+    "Numeric backoff/jitter values and execution counts across invocations are runtime quantities.")
+reg("C13", "DESIGN.md#14", "abstract interpretation of the wait_for_condition executor with def-use of the polled state",
+    "Decides that the check function receives the deserialised recorded payload (or the initial state when the path established none is recorded), that the "
+    "value it returned is what is serialised into RETRY/SUCCEED and returned, attempt+1 threading, and decision=>effect with delay lower bound 1.",
+    "Equality of the restored state after a serializer round trip and poll counts across invocations are runtime quantities.")
+reg("C14", "DESIGN.md#15", "exhaustive status tables by abstract interpretation (callback executor, Callback.result, invoke executor)",
+    "Decides for all 9 status cells the outcome of create_callback, Callback.result() and invoke (START once, synchronous, carrying serialised payload and target; "
+    "suspend / return deserialised / raise recorded error), and the create->submit->result composition of wait_for_callback.",
+    "Backend id stability, payload fidelity and external completion order are runtime facts.")
+reg("C16", "DESIGN.md#17", "abstract interpretation (child executor large branch, replay mapping, handler dispatch, wrapper) + field-flow of summary generators",
+    "Decides that the oversize branch records summary/'' with ReplayChildren and never the payload, the replay-children cell re-runs the body without records, "
+    "handlers dispatch to replay() iff SUCCEEDED and replay() maps each recorded child status to one item, BatchResult summary generators do not flow into "
+    "branch contexts, and the wrapper records an oversized result/error synchronously before answering with an empty payload.",
+    "Equality of the rebuilt value and byte-vs-character length are not decided.")
